@@ -7,11 +7,14 @@ Written from the property statement, not from the translators:
 
       (U) pickle.dumps(P) is the same byte string before and after every translation of P;
       (T) every way of obtaining the text of P yields the same bytes as the first one (the reference text `a`):
-            - the same translator object again (2nd and 3rd time),
+            - the same translator object again,
             - a fresh translator object of the same configuration,
-            - a translator object (fresh, or the one already used for P) that translated other programs in between,
-            - any of the above after P was translated by the translators of the other three languages,
-            - a fresh translator after a translator object of a *different* configuration translated P,
+            - a translator object (fresh, or the one already used for P) that translated other programs in between
+              (and, symmetrically, the texts of those other programs do not depend on P having been translated first),
+            - the same and a fresh translator object after P was translated by the translators of the other three
+              languages,
+            - the same and a fresh translator object after translator objects of a *different* configuration
+              (package, options) translated P,
             - a fresh translator on a structurally identical private copy of P taken before P was ever translated.
 
 The reference model therefore is simply "the first text is the text"; the driver enumerates histories.  Nothing in
@@ -32,10 +35,10 @@ import time
 import weakref
 
 LANGS = ['java', 'kotlin', 'groovy', 'scala']
-HERE = os.path.dirname(os.path.dirname(os.path.abspath(__file__)))
 
 # fixed base seed lists (VERIF_SEED only adds the random histories and a few extra seeds)
-QUICK_SEEDS = [0, 1, 4, 11, 12, 13, 19, 23]      # eight seeds whose twelve programs translate fast enough for the quick tier
+# seven seeds (+ the hand-built job = 8 jobs for 8 workers) whose twelve programs are generated and translated fast enough for the quick tier
+QUICK_SEEDS = [0, 1, 4, 11, 12, 13, 19]
 THOROUGH_SEEDS = list(range(0, 36))
 STAGES = ['generated', 'erased', 'overwritten']
 
@@ -472,7 +475,7 @@ class Checker:
                       'fresh translator object that first translated: ') + desc)
 
         def block(tl, cfg, full):
-            """first / second (/ third) translation, fresh object, hand-built programs before and after"""
+            """first and second translation, fresh object, hand-built programs after and before the program"""
             t1 = self.mk(tl, cfg)
             a = self.tr(t1, prog)
             if not isinstance(a, str):
